@@ -492,6 +492,7 @@ class HttpParser:
                 self.host = self._url.hostname
                 self.port = 443 if self._url.port is None else self._url.port
             else:
+                # NOTE: An explicit port 0 is not a missing port
                 self.host, self.port = self._url.hostname, self._url.port \
-                    if self._url.port else DEFAULT_HTTP_PORT
+                    if self._url.port is not None else DEFAULT_HTTP_PORT
             self.path = self._url.remainder
